@@ -1024,6 +1024,130 @@ func runComposedUsage(c *kit.Ctx) {
 	}
 }
 
+// runClaimDeletionFaults is part E: a bound claim is deleted by the user; every API call of the
+// claim controller's first reconcile after the deletion fails once with each of the 8 outcomes
+// (among them "kind not served" and 503), then the controllers settle without faults. The
+// precedence monitors run throughout: whatever the failed call, the claim's finalizer goes only
+// after its XR was deleted (and is gone under Foreground).
+func runClaimDeletionFaults(c *kit.Ctx) {
+	for _, ssa := range []bool{false, true} {
+		for _, pol := range []string{"Background", "Foreground"} {
+			build := func(seed uint64) *env {
+				e := newEnv(seed, ssa)
+				e.w.MustSeed("user", xrk.ClaimObject("ex.org/v1", "Thing", "ns1", "c0", map[string]any{"compositionRef": map[string]any{"name": "comp"}, "compositeDeletePolicy": pol}))
+				e.settle(4)
+				cm := e.w.GetObj(sim.Key{Group: "ex.org", Kind: "Thing", Namespace: "ns1", Name: "c0"})
+				if err := e.w.Client("user").Delete(ctx, &unstructured.Unstructured{Object: cm}); err != nil {
+					panic(err)
+				}
+				return e
+			}
+			seed := uint64(c.Seed)*227 + 1
+			probe := build(seed)
+			probe.reconcileClaims()
+			calls := probe.clC.Calls()
+			for k := 0; k < calls; k++ {
+				for _, out := range sim.EnumFaults {
+					if out == sim.CrashBefore || out == sim.CrashAfter {
+						continue // the claim reconciler is not rebuilt in this environment
+					}
+					name := fmt.Sprintf("claim-deletion-fault/ssa=%v/%s/k%d/%s", ssa, pol, k, out)
+					if !c.Want(name) {
+						continue
+					}
+					e := build(seed)
+					m := newMonitor()
+					m.running[ctlComposite] = e.defEng.IsRunning(ctlComposite)
+					m.running[ctlClaim] = e.offEng.IsRunning(ctlClaim)
+					e.w.AddHook(m.hook)
+					from := e.w.LogLen()
+					e.clC.Fault(k, out)
+					e.reconcileClaims()
+					e.clC.ClearFaults()
+					e.settle(6)
+					c.Eval(name, true)
+					c.Count("claim_deletion_fault_cases", 1)
+					c.Count("monitor_evaluations", int64(m.checks))
+					if cm := e.w.GetObj(sim.Key{Group: "ex.org", Kind: "Thing", Namespace: "ns1", Name: "c0"}); cm != nil {
+						c.Count("claim_deletion_not_finished_observed_only", 1)
+					}
+					for i, key := range m.keys {
+						c.Violate(key+":claim-deletion-fault", name, m.whats[i], map[string]any{"ssa": ssa, "policy": pol, "call": k, "outcome": out.String(), "order": m.order, "trace": shortTrace(e.w, from, 60)})
+					}
+				}
+			}
+		}
+	}
+}
+
+// runPausedTeardown is part F: the XRD is deleted while a claim (or an XR) carries the
+// crossplane.io/paused annotation, so its own controller does not finalize it. The teardown has
+// to wait for it like for any other instance: controller stop and CRD deletion only after every
+// instance is gone. Later the user un-pauses it and the teardown completes.
+func runPausedTeardown(c *kit.Ctx) {
+	for i, what := range []string{"claim", "xr", "claim", "xr"} {
+		ssa := i >= 2
+		name := fmt.Sprintf("paused-teardown/%s/ssa=%v", what, ssa)
+		if !c.Want(name) {
+			continue
+		}
+		e := newEnv(uint64(c.Seed)*229+uint64(i), ssa)
+		w := e.w
+		w.MustSeed("user", xrk.ClaimObject("ex.org/v1", "Thing", "ns1", "c0", map[string]any{"compositionRef": map[string]any{"name": "comp"}}))
+		w.MustSeed("user", xrk.ClaimObject("ex.org/v1", "Thing", "ns1", "c1", map[string]any{"compositionRef": map[string]any{"name": "comp"}}))
+		e.settle(4)
+		u := w.Client("user")
+		pause := func(val string) {
+			gk := claimGK
+			if what == "xr" {
+				gk = xrGK
+			}
+			for _, o := range w.ListObjs(gk) {
+				if what == "claim" && sim.Str(o, "metadata", "name") != "c0" {
+					continue
+				}
+				uo := &unstructured.Unstructured{Object: o}
+				an := uo.GetAnnotations()
+				if an == nil {
+					an = map[string]string{}
+				}
+				if val == "" {
+					delete(an, "crossplane.io/paused")
+				} else {
+					an["crossplane.io/paused"] = val
+				}
+				uo.SetAnnotations(an)
+				_ = u.Update(ctx, uo)
+				if what == "xr" {
+					break
+				}
+			}
+		}
+		pause("true")
+		m := newMonitor()
+		m.running[ctlComposite] = e.defEng.IsRunning(ctlComposite)
+		m.running[ctlClaim] = e.offEng.IsRunning(ctlClaim)
+		w.AddHook(m.hook)
+		from := w.LogLen()
+		if err := u.Delete(ctx, &unstructured.Unstructured{Object: w.GetObj(xrdKey)}); err != nil {
+			panic(err)
+		}
+		e.settle(8)
+		waiting := w.GetObj(xrdKey) != nil
+		pause("")
+		e.settle(8)
+		c.Eval(name, waiting)
+		c.Count("paused_teardown_cases", 1)
+		if waiting {
+			c.Count("paused_teardown_waited_for_paused_instance", 1)
+		}
+		c.Count("monitor_evaluations", int64(m.checks))
+		for k, key := range m.keys {
+			c.Violate(key+":paused-"+what, name, m.whats[k], map[string]any{"paused": what, "ssa": ssa, "order": m.order, "trace": shortTrace(w, from, 80)})
+		}
+	}
+}
+
 func shortTrace(w *sim.World, from, max int) []string {
 	var out []string
 	for _, e := range w.Log(from) {
@@ -1052,7 +1176,7 @@ func onceAt(call int) func(int, string, sim.Key) sim.Outcome {
 func main() {
 	c := kit.New("C08", "exploration")
 	c.Rule = "worlds with one XRD (with claim names), 1-2 claims with Background/Foreground/unset delete policy, optionally a directly created XR and a not-yet-bound claim; actors scheduled at API-call granularity by a seeded scheduler: user deletions (claim, XR, XRD with foreground/background propagation, in every order), the real definition and offered reconcilers, the production-wired claim and XR reconcilers they start (gated by engine Start/Stop), the Kubernetes garbage collector (one action per step), a third party stripping finalizers, one injected API error; then sequential settling. Precedence monitors on every trace event: claim finalizer removal => XR delete issued before (XR gone under Foreground); CRD delete => no instance exists and the controller was stopped; engine.Stop during XRD deletion => no instance exists; XRD finalizer removal => CRD gone or not ours; at the end nothing terminating is left with a stopped controller. Part B (package revisions): the real revision reconciler's deletion branch with the real PackageDependencyManager over a Lock in sim - every call index x 6 outcomes for an Active and an Inactive deleted revision plus seeded schedules of two revisions deleted concurrently; monitor: the revision finalizer is removed only when the Lock no longer lists the revision. distinct = (scenario, schedule); non-trivial = >=2 different reconcilers made effective writes during the scheduled phase."
-	c.Rule += " Part C: XRD teardown against the REAL ControllerEngine over fake informers whose RemoveEventHandler fails once or twice; Stop marks are ground truth (context cancelled, no handler registered). Part D: the real usage reconciler on a composed Usage (composite label, spec.by) with user deletions of the Usage and the using resource (fore/background), a provider finalizer, a lingering dependent and single GC steps in fixed and seeded orders; monitor: the usage controller removes the Usage finalizer only when the using resource is gone."
+	c.Rule += " Part E: a bound claim (Background / Foreground, both syncers) is deleted; every API call of the claim controller's next reconcile fails once with each of 6 non-crash outcomes (incl. kind not served, 503), then fault-free settling; same monitors. Part F: XRD deletion while a claim is paused. Part C: XRD teardown against the REAL ControllerEngine over fake informers whose RemoveEventHandler fails once or twice; Stop marks are ground truth (context cancelled, no handler registered). Part D: the real usage reconciler on a composed Usage (composite label, spec.by) with user deletions of the Usage and the using resource (fore/background), a provider finalizer, a lingering dependent and single GC steps in fixed and seeded orders; monitor: the usage controller removes the Usage finalizer only when the using resource is gone."
 	c.Assumptions = []string{"a stopped controller reconciles nothing; a running one reconciles every instance when scheduled", "part C: fake informers stand in for client-go shared informers (handler registrations, RemoveEventHandler errors); part D: the Usage is composed by label only, no XR reconciler runs"}
 	c.Floor = 100
 	n := c.N(400, 8000)
@@ -1080,6 +1204,12 @@ func main() {
 	runPreempt(c)
 	if err := kit.Try(func() { runRealEngine(c) }); err != nil {
 		c.Violate("panic:real-engine", "real-engine", err.Error(), nil)
+	}
+	if err := kit.Try(func() { runClaimDeletionFaults(c) }); err != nil {
+		c.Violate("panic:claim-deletion-faults", "claim-deletion-fault", err.Error(), nil)
+	}
+	if err := kit.Try(func() { runPausedTeardown(c) }); err != nil {
+		c.Violate("panic:paused-teardown", "paused-teardown", err.Error(), nil)
 	}
 	if err := kit.Try(func() { runComposedUsage(c) }); err != nil {
 		c.Violate("panic:composed-usage", "composed-usage", err.Error(), nil)
